@@ -326,7 +326,9 @@ Definition tf_md_witness : tf_st :=
      tf_idx := [(3, 5)]; tf_bankmd := [(5, 77)] |}.
 Definition tf_md_funs : funs :=
   {| f_hash := fun _ => 0; f_code_empty := fun _ => false; f_ftid := fun _ _ => 0;
-     f_tfparse := fun _ => (3, 1); f_tfdefmd := fun _ => 42; f_dgsan := fun x => x; f_pairjson := fun p => p |}.
+     f_tfparse := fun _ => (3, 1); f_tfdefmd := fun _ => 42; f_dgsan := fun x => x; f_pairjson := fun p => p;
+     f_addr_ok := fun _ => true; f_canon := fun k => k; f_dgp_ok := fun _ => true; f_dgp_enabled := fun _ => true;
+     f_gov := 0; f_empty := 0 |}.
 
 Lemma tf_md_witness_wf : wf_tf tf_md_funs tf_md_witness.
 Proof.
@@ -350,7 +352,9 @@ Record wf_devgas (F : funs) (s : devgas_st) : Prop := {
   wd_keys : keys_match fs_contract (dg_shares s);
   wd_idx_dep : dg_idx_dep s = idx_of (fun _ v => fs_deployer v) (dg_shares s);
   wd_idx_wd : dg_idx_wd s = idx_of (fun _ v => fs_withdrawer v) (dg_shares s);
-  wd_san : f_dgsan F (dg_params s) = dg_params s     (* stored params are already sanitised *)
+  wd_san : f_dgsan F (dg_params s) = dg_params s;    (* stored params are already sanitised *)
+  wd_valid : forall k f, In (k, f) (dg_shares s) -> fs_valid F f = true;   (* FeeShare.Validate accepts every stored share *)
+  wd_pok : f_dgp_ok F (dg_params s) = true                                 (* Params.Validate accepts the stored params *)
 }.
 
 Lemma map_keyed_id_gen : forall V (f : V -> nat) (m : smap V), keys_match f m -> map (fun v => (f v, v)) (map snd m) = m.
@@ -368,8 +372,12 @@ Qed.
 Lemma devgas_roundtrip : forall F s, wf_devgas F s ->
   init_devgas F (export_devgas s) = Some s.
 Proof.
-  intros F s [Hs Hk Hd Hw Hsan]. unfold init_devgas, export_devgas. cbn [dgg_shares dgg_params].
+  intros F s [Hs Hk Hd Hw Hsan Hv Hp]. unfold init_devgas, export_devgas. cbn [dgg_shares dgg_params].
   rewrite (map_key_fst _ _ _ Hk), (nodupb_sorted _ _ Hs). cbn [negb].
+  assert (Hall : forallb (fs_valid F) (map snd (dg_shares s)) = true).
+  { apply forallb_forall. intros f Hin. apply in_map_iff in Hin. destruct Hin as [[k f'] [E Hin]]. cbn in E. subst f'.
+    exact (Hv k f Hin). }
+  rewrite Hall, Hp. cbn [negb].
   rewrite (map_keyed_id_gen _ _ _ Hk), (of_list_sorted _ Hs), Hsan, <- Hd, <- Hw.
   destruct s; reflexivity.
 Qed.
@@ -691,7 +699,8 @@ Proof.
     + intros d v Hin. match goal with H : forallb (fun dv => mem _ _) _ = true |- _ => rewrite forallb_forall in H; specialize (H _ Hin); exact H end.
   - match goal with H : wf_devgasb _ _ = true |- _ => unfold wf_devgasb in H; andb_split end.
     constructor; try assumption; try (eapply eqb_of_true; eassumption); try (apply keys_matchb_sound; assumption).
-    apply Nat.eqb_eq. assumption.
+    + apply Nat.eqb_eq. assumption.
+    + intros k f Hin. match goal with H : forallb _ (dg_shares _) = true |- _ => rewrite forallb_forall in H; exact (H _ Hin) end.
   - match goal with H : wf_evmb _ _ = true |- _ => unfold wf_evmb in H; andb_split end.
     constructor; try assumption; try (eapply eqb_of_true; eassumption); try (apply keys_matchb_sound; assumption).
     + intros h c Hin. match goal with H : forallb _ (ev_code _) = true |- _ => rewrite forallb_forall in H; specialize (H _ Hin); cbn in H end.
@@ -714,7 +723,9 @@ Definition ex_funs : funs :=
      f_tfparse := fun d => (d + 1, d + 2);
      f_tfdefmd := fun d => 500 + d;
      f_dgsan := fun p => p;
-     f_pairjson := fun p => p |}.
+     f_pairjson := fun p => p;
+     f_addr_ok := fun k => negb (k =? 0); f_canon := fun k => k; f_dgp_ok := fun _ => true; f_dgp_enabled := fun _ => true;
+     f_gov := 1; f_empty := 0 |}.
 Definition ex_env : list authacc :=
   [ {| aa_addr := 1; aa_eth := true; aa_hash := 0 |};        (* EOA *)
     {| aa_addr := 3; aa_eth := true; aa_hash := 1 |};        (* contract with storage *)
@@ -747,7 +758,7 @@ Proof. apply wf_appb_sound. vm_compute. reflexivity. Qed.
 
 (** … and on it the round trip really drops / re-bases what the exception list says (and nothing else). *)
 Example app_roundtrip_nonvacuous :
-  let c := {| c_rid := RidLastPlus1; c_tf_keeps_bank_md := true; c_pair_json_id := true |} in
+  let c := {| c_rid := RidLastPlus1; c_tf_keeps_bank_md := true; c_pair_json_id := true; c_dg_upd := DgUpdKeep |} in
   exists g s', export_app ex_env ex_state = Some g /\
     init_app c ex_funs ex_env (tf_bankmd (a_tf ex_state)) 100%Z 2000%Z g = Some s' /\
     s' <> ex_state /\
@@ -773,14 +784,14 @@ Lemma state_equiv_strict : forall c F env h t s, cfg_ok c = true -> wf_app F env
                state_equiv false false env h t s s'.
 Proof.
   intros c F env h t s Hc W. destruct (app_roundtrip c F env h t s W) as (g & s' & H1 & H2 & _ & H4).
-  exists g, s'. unfold cfg_ok in Hc. destruct (c_rid c); try discriminate.
+  exists g, s'. unfold cfg_ok in Hc. apply andb_true_iff in Hc. destruct Hc as [Hc _]. destruct (c_rid c); try discriminate.
   apply andb_true_iff in Hc. destruct Hc as [Hc _]. rewrite Hc in H4. cbn in H4.
   split; [exact H1|]. split; [exact H2|]. exact H4.
 Qed.
 
 Lemma exceptions_of_ok_cfg : forall c, cfg_ok c = true -> exceptions c = tolerated.
 Proof.
-  intros c Hc. unfold cfg_ok in Hc. unfold exceptions. destruct (c_rid c); try discriminate.
+  intros c Hc. unfold cfg_ok in Hc. apply andb_true_iff in Hc. destruct Hc as [Hc _]. unfold exceptions. destruct (c_rid c); try discriminate.
   apply andb_true_iff in Hc. destruct Hc as [Hc _]. rewrite Hc. reflexivity.
 Qed.
 
@@ -834,7 +845,7 @@ Proof.
   intros c F env h t h2 t2 s Hc W.
   destruct (app_roundtrip c F env h t s W) as (g & s' & H1 & H2 & H3 & H4).
   assert (H4' : state_equiv false false env h t s s').
-  { unfold cfg_ok in Hc. destruct (c_rid c); try discriminate.
+  { unfold cfg_ok in Hc. apply andb_true_iff in Hc. destruct Hc as [Hc _]. destruct (c_rid c); try discriminate.
     apply andb_true_iff in Hc. destruct Hc as [Hc _]. rewrite Hc in H4. exact H4. }
   pose proof (wf_after_import F env h t s s' W H4') as W'.
   destruct (app_roundtrip c F env h2 t2 s' W') as (g2 & s'' & K1 & K2 & K3 & _).
